@@ -221,6 +221,12 @@ def check(repo, rep, tier):
             fdef = in_fn[0]
             callers = [c_ for c_ in ast.walk(m.tree) if isinstance(c_, ast.Call) and isinstance(c_.func, ast.Name) and c_.func.id == fdef.name]
             top = [s_ for s_ in m.tree.body if isinstance(s_, ast.Expr) and isinstance(s_.value, ast.Call) and s_.value in callers]
+            early = [x_ for x_ in ast.walk(fdef) if isinstance(x_, (ast.Return, ast.Raise)) and x_.lineno < n.lineno
+                     and not any(isinstance(p_, (ast.FunctionDef, ast.Lambda)) and p_ is not fdef for p_ in parents(x_))]
+            if early:
+                r1.violation("%s:%s" % (m.relpath, early[0].lineno), m.name, norm(early[0]),
+                             "the helper that registers the exit callback can leave before the registration: on that path a run that "
+                             "ends normally produces no proof", "register/early-exit")
             if len(callers) == 1 and len(top) == 1 and fdef in m.tree.body:
                 once_fn = True
                 if isinstance(n.args[0] if n.args else None, ast.Name):
